@@ -122,7 +122,7 @@ func round(s *slip.Scope, f slip.Object, args slip.List, depth int) slip.Values 
 		_ = zq.Quo((*big.Float)(tn), (*big.Float)(div.(*slip.LongFloat)))
 		bi, acc := zq.Int(nil)
 		if acc == big.Exact {
-			q = (*slip.Bignum)(bi)
+			q = slip.IntegerFromBig(bi)
 			r = (*slip.LongFloat)(big.NewFloat(0.0))
 			break
 		}
@@ -170,7 +170,7 @@ func round(s *slip.Scope, f slip.Object, args slip.List, depth int) slip.Values 
 		} else if ds < 0 {
 			_ = bi.Neg(bi)
 		}
-		q = (*slip.Bignum)(bi)
+		q = slip.IntegerFromBig(bi)
 		r = (*slip.LongFloat)(&zr)
 	case *slip.Bignum:
 		var (
@@ -214,8 +214,8 @@ func round(s *slip.Scope, f slip.Object, args slip.List, depth int) slip.Values 
 		} else if ds < 0 {
 			_ = zq.Neg(&zq)
 		}
-		q = (*slip.Bignum)(&zq)
-		r = (*slip.Bignum)(&zr)
+		q = slip.IntegerFromBig(&zq)
+		r = slip.IntegerFromBig(&zr)
 	case *slip.Ratio:
 		var (
 			zp big.Rat
@@ -266,7 +266,7 @@ func round(s *slip.Scope, f slip.Object, args slip.List, depth int) slip.Values 
 			_ = bi.Neg(&bi)
 		}
 
-		q = (*slip.Bignum)(&bi)
+		q = slip.IntegerFromBig(&bi)
 		r = (*slip.Ratio)(&zr)
 	case slip.Complex:
 		slip.TypePanic(s, depth, "number", tn, "real")
